@@ -370,7 +370,17 @@ let () =
            (match secs with
             | [name; b; _] ->
               hid := "conversions"; opno := 0; header := ""; cur := name; bump_count "conversion_cases";
+              if b <> "same" && starts_with name "Q drain_adaptors" then
+                report_spec ~prop:"C15" ~pred:"skipped_items_dropped_once" ~detail:(String.map (fun c -> if c = ' ' then '_' else c) (name ^ ":" ^ b));
               if b <> "same" then report_spec ~prop:(if starts_with name "Q box_" then "C17" else "C13") ~pred:"conversions_like_std" ~detail:(String.map (fun c -> if c = ' ' then '_' else c) (name ^ ":" ^ b))
+            | _ -> ())
+         | 'I' ->
+           (* C20: collections of two arenas that meet: I name | ok-or-what-went-wrong *)
+           let secs = List.map String.trim (String.split_on_char '|' line) in
+           (match secs with
+            | [name; b] ->
+              hid := "isolation"; opno := 0; header := ""; cur := name; bump_count "isolation_cases";
+              if b <> "ok" then report_spec ~prop:"C20" ~pred:"collection_stays_in_its_arena" ~detail:(String.map (fun c -> if c = ' ' then '_' else c) b)
             | _ -> ())
          | 'R' ->
            (* C18 growth probes: R name es=.. .. reallocs|moved=<k> bound=<b> *)
